@@ -258,22 +258,32 @@ Definition rdp_decide (c : rdp_cfg) (x : x224) (payload : list byte) : verdict :
   match corr_ok i with RPanic => Panic | Err => Panic | Ok true => Yes | Ok false => No end
   end end end end end end end.
 
-Definition rdp_match (c : rdp_cfg) (p : list byte) : verdict :=
-  match read_full connreq_min p with None => More | Some (hdr, r1) =>
-  match slice hdr 0 tpkt_total with None => Panic | Some hb =>
-  match tpkt_from_bytes hb with RPanic => Panic | Err => No | Ok h =>
+(* the decisions taken on the 11 header bytes: TPKTHeader and X224Crq, payload length *)
+Inductive hdr_res := HNo | HPanic | HOk (x : x224) (plen : nat).
+Definition rdp_header (hdr : list byte) : hdr_res :=
+  match slice hdr 0 tpkt_total with None => HPanic | Some hb =>
+  match tpkt_from_bytes hb with RPanic => HPanic | Err => HNo | Ok h =>
   if negb (tp_version h =? Z.to_N l4rdp_TPKTHeaderVersion)%N || negb (tp_reserved h =? Z.to_N l4rdp_TPKTHeaderReserved)%N ||
-     (tp_length h <? Z.to_N l4rdp_RDPConnReqBytesMin)%N || (Z.to_N l4rdp_RDPConnReqBytesMax <? tp_length h)%N then No else
-  match slice hdr tpkt_total (tpkt_total + x224_total) with None => Panic | Some xb =>
-  match x224_from_bytes xb with RPanic => Panic | Err => No | Ok x =>
+     (tp_length h <? Z.to_N l4rdp_RDPConnReqBytesMin)%N || (Z.to_N l4rdp_RDPConnReqBytesMax <? tp_length h)%N then HNo else
+  match slice hdr tpkt_total (tpkt_total + x224_total) with None => HPanic | Some xb =>
+  match x224_from_bytes xb with RPanic => HPanic | Err => HNo | Ok x =>
   if negb (x_typecredit x =? Z.to_N l4rdp_X224CrqTypeCredit)%N || negb (x_dstref x =? Z.to_N l4rdp_X224CrqDstRef)%N ||
      negb (x_srcref x =? Z.to_N l4rdp_X224CrqSrcRef)%N || negb (x_classopts x =? Z.to_N l4rdp_X224CrqClassOptions)%N ||
-     negb (x_length x =? sub16 (sub16 (tp_length h) (N.of_nat tpkt_total)) 1)%N then No else
+     negb (x_length x =? sub16 (sub16 (tp_length h) (N.of_nat tpkt_total)) 1)%N then HNo else
   let plen := sub16 (x_length x) (N.of_nat (x224_total - 1)) in
-  if (plen =? 0)%N then No else
-  match read_full (N.to_nat plen) r1 with None => More | Some (payload, r2) =>
-  match read_full 1 r2 with Some _ => No | None => rdp_decide c x payload end
-  end end end end end end.
+  if (plen =? 0)%N then HNo else HOk x (N.to_nat plen)
+  end end end end.
+
+Definition rdp_match (c : rdp_cfg) (p : list byte) : verdict :=
+  match read_full connreq_min p with None => More | Some (hdr, r1) =>
+  match rdp_header hdr with
+  | HNo => No
+  | HPanic => Panic
+  | HOk x plen =>
+      match read_full plen r1 with None => More | Some (payload, r2) =>
+      match read_full 1 r2 with Some _ => No | None => rdp_decide c x payload end
+      end
+  end end.
 
 (* make() sizes of one Match call: header, payload, extra byte, token Optional copy, small buffers *)
 Definition rdp_alloc (p : list byte) : N := N.of_nat connreq_min + two8 + 1 + two8 + 16.
